@@ -290,6 +290,19 @@ func c07Gen(t *rapid.T) c07Case {
 	cfg.UnicastOnly = rapid.IntRange(0, 3).Draw(t, "unicast-only") == 0
 	cfg.RA.Opts = append(cfg.RA.Opts, vOpt{Kind: "mtu", MTU: 1500})
 	sc := advScenario{Cfg: cfg, Fwd0: true, Terminate: rapid.Bool().Draw(t, "terminate")}
+	// one Metrics serves every configured interface (as main.go builds it): siblings of either
+	// kind, before and after the interface under test, must not change what is counted for it
+	if rapid.IntRange(0, 2).Draw(t, "siblings") == 0 {
+		for i, n := 0, rapid.IntRange(1, 3).Draw(t, "nsiblings"); i < n; i++ {
+			x := c06BaseCfg(600)
+			x.MinNS = 200 * s
+			x.UnicastOnly = rapid.Bool().Draw(t, "sibling-unicast-only")
+			sc.Extra = append(sc.Extra, x)
+		}
+		for i, n := 0, rapid.IntRange(0, 2).Draw(t, "nbefore"); i < n; i++ {
+			sc.Before = append(sc.Before, rapid.SampledFrom([]string{"monitor", "idle"}).Draw(t, "before"))
+		}
+	}
 	at := int64(0)
 	for i, n := 0, rapid.IntRange(1, 40).Draw(t, "nevents"); i < n; i++ {
 		switch rapid.IntRange(0, 5).Draw(t, "gapkind") {
